@@ -134,6 +134,10 @@ def _cases(tier):
                         if n == 2 and tier == "quick" and len(F) == 3:
                             continue
                         cases.append({"c": cont, "s": list(slots), "o": list(sh), "F": F})
+    # user-controlled values that change between evaluations of the same call site (Is(i) in a loop)
+    for body in REEVAL:
+        for F in ([], ["fix"], ["create", "fix"], ["update"], list(CATS)):
+            cases.append({"reeval": body, "F": F})
     for st, ob in STAR:
         for F in FS:
             cases.append({"star": st, "obs": ob, "F": F})
@@ -154,6 +158,20 @@ def build(tier, seed):
     return tasks
 
 
+REEVAL = [
+    "assert [i, 5] == snapshot([Is(i), 5])",
+    "assert {'a': i, 'b': [5]} == snapshot({'a': Is(i), 'b': [5]})",
+    "assert (5, [i]) == snapshot((5, [Is(i)]))",
+    "assert DC3(a=i, b=5) == snapshot(DC3(a=Is(i), b=5))",
+    "s = snapshot({'a': Is(i), 'b': 2}); assert s['a'] == i; assert s['b'] == 2",
+    "s = snapshot({'a': [Is(i), 2]}); assert s['a'] == [i, 2]",
+    "s = snapshot({'a': {'b': Is(i)}}); assert s['a']['b'] == i",
+    "assert i in snapshot([Is(i), 9])",
+    "assert i + 0 == snapshot(Is(i))",
+    "assert [i, 5] == snapshot([Is(i), 5+0])",
+]
+
+
 def _arg(c):
     if "star" in c:
         return c["star"]
@@ -161,6 +179,8 @@ def _arg(c):
 
 
 def _site(i, c):
+    if "reeval" in c:
+        return "def test_%d():\n    for i in (1, 2, 3, 2):\n        %s\n" % (i, c["reeval"].replace("; ", "\n        "))
     if "star" in c and c.get("never"):
         return "def test_%d():\n    s = snapshot(%s)\n" % (i, c["star"])
     if "star" in c:
@@ -207,6 +227,16 @@ def _is_subseq(a, b):
 def _analyze(c, i, before, after, rx, ctx):
     F = set(c["F"])
     btxt, atxt = before["arg_text"], after["arg_text"]
+    if "reeval" in c:
+        raised = str(ctx["r"].get("raised") or "")
+        if raised:
+            return ("changing-user-controlled-value-breaks-re-evaluation", raised[:200])
+        sb, sa = _segments(btxt), _segments(atxt)
+        if [x for x in sb if x[0] == "is"] != [x for x in sa if x[0] == "is"]:
+            return ("unmanaged-text-altered", "%s -> %s" % (btxt, atxt))
+        if "5+0" not in btxt and " in snapshot(" not in c["reeval"] and atxt != btxt:
+            return ("unmanaged-text-altered", "nothing is pending: %s -> %s" % (btxt, atxt))
+        return None
     if "star" in c:
         # every container that directly holds a star-expression must survive verbatim
         from ..oracles.locate import Loc
@@ -277,5 +307,5 @@ def run_case(case):
 
 def run_task(task):
     return batch.run_batched(task["cases"], _judge,
-                             label=lambda c: "ok:star" if "star" in c else "ok:%s:%s" % (c["c"], c["o"][0]),
+                             label=lambda c: "ok:star" if "star" in c else ("ok:reeval" if "reeval" in c else "ok:%s:%s" % (c["c"], c["o"][0])),
                              key=lambda c: repr(sorted(c.items())))
